@@ -5,7 +5,7 @@ EXTENDS PoolRun, Json
 
 Base == [n |-> 2, t |-> 2, shared |-> TRUE, ammo |-> 3, provider |-> "ok", aggregator |-> "ok", warm |-> "none",
          gunFail |-> -1, bindFail |-> -1, schedFail |-> -1, panicInst |-> -1, panicShot |-> -1,
-         closable |-> TRUE, ek |-> "plain"]
+         closable |-> TRUE, ek |-> "plain", long |-> FALSE, slow |-> FALSE]
 
 \* run shapes: how the run would end without a fault
 Shapes == <<
@@ -56,9 +56,9 @@ Plans2b == { [id |-> 2000 + f, pools |-> <<SmallPlan(f), SmallPlan(6)>>, cancel 
 Plans1NC == {pl \in Plans1 : ~pl.cancel}
 Plans1C == {pl \in Plans1 : pl.cancel}
 \* quick tier: every fault without user cancel on the schedule-end shape, the clean run on the other shape
-QuickFaults == {"none", "prov-before-first-ammo", "prov-at-the-very-end", "agg-at-once", "agg-drop-on-cancel", "warmup-fails",
-                "newgun-later", "bind-first", "sched-shared", "sched-later", "panic-later", "not-closable"}
-QuickPlans1 == {pl \in Plans1NC : (pl.pools[1].shape = "sched-end" /\ pl.pools[1].fault \in QuickFaults) \/ pl.pools[1].fault = "none"}
+QuickFaults == {"none", "prov-at-the-very-end", "agg-at-once", "agg-drop-on-cancel", "newgun-later", "bind-first",
+                "sched-shared", "panic-later"}
+QuickPlans1 == {pl \in Plans1NC : pl.pools[1].shape = "sched-end" /\ pl.pools[1].fault \in QuickFaults}
 \* thorough tier: every plan without cancel + user cancel at any step for these faults
 CancelFaults == {"none", "prov-at-the-very-end", "agg-drop-on-cancel", "sched-shared"}
 ThoroughPlans1 == Plans1NC \cup {pl \in Plans1C : pl.pools[1].fault \in CancelFaults /\ pl.pools[1].shape = "out-of-ammo"}
@@ -99,13 +99,35 @@ PlansEK == {pl \in PlansE : LET f == CHOOSE g \in 1..NF : Faults[g].fault = pl.p
                              IN KindOk(f, k, IF pl.cancel THEN 1 ELSE 0)}
 \* exhaustive in the quick tier ("wrapped" has the state graph of "plain"): the late faults with every kind,
 \* a fault of every other component position with an own-context value
-QuickE == {pl \in PlansEK : ~pl.cancel /\ pl.pools[1].ek # "wrapped" /\
-             (pl.pools[1].fault \in {"prov-at-the-very-end", "agg-drop-on-cancel"} \/
-              (pl.pools[1].ek = "deadline" /\ pl.pools[1].fault = "agg-at-once") \/
-              (pl.pools[1].ek = "canceled" /\ pl.pools[1].fault = "bind-first"))}
+QuickE == {pl \in PlansEK : ~pl.cancel /\ pl.pools[1].ek = "deadline" /\ pl.pools[1].fault \in {"prov-at-the-very-end", "agg-drop-on-cancel"}}
 ThoroughE == {pl \in PlansEK : pl.pools[1].ek # "wrapped" /\ ~pl.cancel}
 LateDeadlinePlans == {pl \in PlansEK : ~pl.cancel /\ pl.pools[1].ek = "deadline" /\ pl.pools[1].fault \in {"prov-at-the-very-end", "agg-drop-on-cancel"}}
-AllPlans == PlansSC \cup PlansEK \cup Plans1 \cup Plans2 \cup Plans2b
+(* ---- a pool that does not finish by itself ------------------------------------------------- *)
+\* LongPool: one instance, schedule and ammo that do not run out within the run (driver: unlimited schedule of an
+\* hour, 2^30 ammo): it stops only when its context is done.  SlowPool: an ordinary finite pool whose shots take
+\* milliseconds (field slow is timing only, the driver reads it), so that the other pool finishes first.
+LongPool == [shape |-> "long", long |-> TRUE, n |-> 1] @@ Base @@ [fault |-> "none"]
+SlowPool == [shape |-> "slow", slow |-> TRUE, n |-> 1, t |-> 2, shared |-> TRUE] @@ Base @@ [fault |-> "none"]
+LongFaults == <<3, 5, 10, 16, 17, 9>>   \* prov-mid-run, agg-at-once, newgun-first, sched-shared, panic-first, newgun-warmup
+\* one pool fails while the other is in the middle of a run that would go on for an hour; the caller never cancels:
+\* Run returns the error and its deferred cancel must stop the healthy pool, Wait returns
+PlansL == { [id |-> 5000 + (k - 1) * 2 + w, pools |-> IF w = 1 THEN <<SmallPlan(LongFaults[k]), LongPool>>
+                                                              ELSE <<LongPool, SmallPlan(LongFaults[k])>>, cancel |-> FALSE] :
+            k \in 1..Len(LongFaults), w \in 1..2 }
+\* the caller cancels in the middle of two long pools / of a long and a short one: both stop
+PlansLC == { [id |-> 5021, pools |-> <<LongPool, LongPool>>, cancel |-> TRUE],
+             [id |-> 5022, pools |-> <<LongPool, SmallPlan(1)>>, cancel |-> TRUE] }
+\* control: one pool finishes normally while the other still shoots: the other must NOT be stopped (it draws its
+\* whole schedule and Run returns nil)
+PlansLN == { [id |-> 5031, pools |-> <<SmallPlan(1), SlowPool>>, cancel |-> FALSE],
+             [id |-> 5032, pools |-> <<SlowPool, SmallPlan(1)>>, cancel |-> FALSE] }
+PlansLong == PlansL \cup PlansLC \cup PlansLN
+\* exhaustive at the design level only where the failing pool fails synchronously (nothing of it is started): the
+\* product of a full two-pool plan with a pool that never ends by itself has > 10^7 states
+LongQuick == {pl \in PlansLong : pl.id = 5011}                    \* newgun-warmup / long
+LongThorough == {pl \in PlansLong : pl.id \in {5007, 5008, 5011, 5012}}   \* + sched-shared, either order
+LongNeg == LongQuick
+AllPlans == PlansSC \cup PlansEK \cup Plans1 \cup Plans2 \cup Plans2b \cup PlansLong
 OnePlan == {pl \in Plans1 : pl.id = 1}
 \* negative controls need only the plans that trigger the defect
 SchedSharedPlans == {pl \in Plans1 : pl.pools[1].fault = "sched-shared"}
